@@ -101,12 +101,20 @@ for _ in range(2):
                 o.randomize()
         r.append([int(o.a), int(o.b), int(o.c), int(o.d), int(o.e), list(map(int, o.l)), int(o.u1), int(o.u2)])
     rep.append(r)
+# a state derived from (seed, string)
+q = Item()
+q.set_randstate(RandState.mkFromSeed(7, "top.env.agent0"))
+named = []
+for k in range(3):
+    with contextlib.redirect_stdout(buf):
+        q.randomize()
+    named.append([int(q.a), int(q.b), int(q.u1)])
 # default state: fixed by Python's global random seed
 random.seed(99)
 p = Item()
 with contextlib.redirect_stdout(buf):
     p.randomize()
 dflt = [int(p.a), int(p.u1)]
-print(json.dumps({"seq": out, "replays": rep, "default": dflt}))
+print(json.dumps({"seq": out, "replays": rep, "default": dflt, "named": named}))
 sys.stdout.flush()
 os._exit(0)
